@@ -22,3 +22,41 @@ func Perm(n int) []int {
 	vrt.RandShuffle(n, func(i, j int) { p[i], p[j] = p[j], p[i] })
 	return p
 }
+
+// A private generator (rand.New(rand.NewSource(seed))) is answered by the explorer exactly like the
+// package-level functions: the seed is ignored, every draw is a choice point.
+type Source interface {
+	Int63() int64
+	Seed(seed int64)
+}
+
+type Source64 interface {
+	Source
+	Uint64() uint64
+}
+
+type src struct{}
+
+func (src) Int63() int64   { return 0 }
+func (src) Seed(int64)     {}
+func (src) Uint64() uint64 { return 0 }
+
+func NewSource(seed int64) Source { return src{} }
+
+type Rand struct{}
+
+func New(s Source) *Rand { return &Rand{} }
+
+func (*Rand) Seed(s int64)                       {}
+func (*Rand) Intn(n int) int                     { return Intn(n) }
+func (*Rand) Int31n(n int32) int32               { return Int31n(n) }
+func (*Rand) Int63n(n int64) int64               { return Int63n(n) }
+func (*Rand) Shuffle(n int, swap func(i, j int)) { Shuffle(n, swap) }
+func (*Rand) Perm(n int) []int                   { return Perm(n) }
+func (*Rand) Int() int                           { return 0 }
+func (*Rand) Int63() int64                       { return 0 }
+func (*Rand) Int31() int32                       { return 0 }
+func (*Rand) Uint32() uint32                     { return 0 }
+func (*Rand) Uint64() uint64                     { return 0 }
+func (*Rand) Float64() float64                   { return 0 }
+func (*Rand) Float32() float32                   { return 0 }
